@@ -8,6 +8,8 @@ import (
 
 const symxBase = 1600000000
 
+var symxStepNames = []string{"k0", "k1", "k2", "k3", "k4", "k5", "k6", "k7"}
+
 // symxC04B: the timeout list alone: insert / delete / update / expire against a reference table.
 func symxC04B() {
 	ops := rt.Param("ops", 3)
@@ -19,6 +21,10 @@ func symxC04B() {
 	var ref [3]ent
 	for step := 0; step < ops; step++ {
 		kind := rt.Int("kind", 0, 3)
+		if fixed := rt.Param(symxStepNames[step], -1); fixed >= 0 {
+			// bounded script shape: the kind of this step is fixed by the check configuration
+			rt.Assume(kind == int64(fixed%10) || (fixed >= 10 && kind == int64(fixed/10-1)))
+		}
 		switch kind {
 		case 0: // insert an id that is not live
 			id := int(rt.Int("id", 0, 2))
